@@ -17,7 +17,9 @@ Record robs := mkobs {
    WithPrefix) and every Router.Handle call the engine made, with its verdict *)
 Record eobs := mkeobs {
   e_err : nat;
-  e_paths : list (list N);
+  e_routes : list (string * list N);       (* Server.Routes() / ng.routes after all AddRoutes: (method, path) *)
+  e_slices : list (list (string * list N) * list (string * list N));
+                                           (* every caller slice: as given, as inspected after start-up *)
   e_calls : list (string * list N * nat)
 }.
 
@@ -114,6 +116,8 @@ Fixpoint model_calls (tb : table) (rs : list reg) : list (string * list N * nat)
       (fst (fst r), snd (fst r), err_code e) :: match e with Some _ => [] | None => model_calls tb' rest end
   end.
 
+Definition mp_eqb (a b : string * list N) : bool := String.eqb (fst a) (fst b) && bytes_eqb (snd a) (snd b).
+
 Definition call_eqb (a b : string * list N * nat) : bool :=
   String.eqb (fst (fst a)) (fst (fst b)) && bytes_eqb (snd (fst a)) (snd (fst b)) && Nat.eqb (snd a) (snd b).
 
@@ -132,7 +136,8 @@ Definition model_ok (c : case) : bool :=
   | Some eo =>
       let rs := engine_routes (c_groups c) in
       let (tb, e) := engine_register (c_groups c) in
-      list_eqb bytes_eqb (map (fun r => snd (fst r)) rs) (e_paths eo) &&
+      list_eqb mp_eqb (map (fun r => fst r) rs) (e_routes eo) &&
+      forallb (fun ba => list_eqb mp_eqb (fst ba) (snd ba)) (e_slices eo) &&
       Nat.eqb (err_code e) (e_err eo) &&
       list_eqb call_eqb (model_calls [] rs) (e_calls eo) &&
       all2 (model_req false false tb) (c_reqs c) (c_res c)
@@ -246,13 +251,23 @@ Definition spec_req_sound (acc : list route) (mp : string * list N) (o : robs) :
 (* engine: the routes the application added (prefix-joined) are registered in order; if one of them
    must be rejected the start-up must fail, and then no handler outside the routes accepted before
    it may be reachable; an error-free start-up registers all of them and routes like the router *)
+(* the patterns the engine handed to the router and had accepted are exactly the registered ones *)
+Definition mpat_eqb (a b : string * list seg) : bool := String.eqb (fst a) (fst b) && pat_eqb (snd a) (snd b).
+Definition same_patterns (acc : list route) (calls : list (string * list N * nat)) : bool :=
+  let got := map (fun c => (fst (fst c), pattern_of (snd (fst c)))) (filter (fun c => Nat.eqb (snd c) 0) calls) in
+  let want := map (fun r => (r_method r, r_pat r)) acc in
+  forallb (fun x => existsb (mpat_eqb x) want) got && forallb (fun x => existsb (mpat_eqb x) got) want.
+
 Definition spec_engine (c : case) (eo : eobs) : bool :=
   let rs := engine_routes (c_groups c) in
   let (acc, verdict) := sbind [] rs in
+  (* registration only reads the caller's slices *)
+  forallb (fun ba => list_eqb mp_eqb (fst ba) (snd ba)) (e_slices eo) &&
   match verdict with
   | Some _ => negb (Nat.eqb (e_err eo) 0) && all2 (spec_req_sound acc) (c_reqs c) (c_res c)
-  | None => if Nat.eqb (e_err eo) 0 then all2 (spec_req false acc) (c_reqs c) (c_res c)
-            else all2 (spec_req_sound acc) (c_reqs c) (c_res c)
+  | None => if Nat.eqb (e_err eo) 0
+            then same_patterns acc (e_calls eo) && all2 (spec_req false acc) (c_reqs c) (c_res c)
+            else false   (* every added route is acceptable, yet the start-up failed: the routes are not served *)
   end.
 
 (* histories: every request is judged against the routes registered (observed accepted) before it *)
@@ -260,7 +275,8 @@ Fixpoint spec_hist (nf : bool) (acc : list route) (idx : nat) (ops : list xop) :
   match ops with
   | [] => true
   | XReg m p e _ :: rest =>
-      if negb (is_none (reject acc m p)) && Nat.eqb e 0 then false
+      (* rejected iff the statement says so: unsupported method, no leading '/', duplicate pattern *)
+      if negb (Bool.eqb (is_none (reject acc m p)) (Nat.eqb e 0)) then false
       else spec_hist nf (if Nat.eqb e 0 then acc ++ [(m, pattern_of p, idx)] else acc) (S idx) rest
   | XReq m p o :: rest => spec_req nf acc (m, p) o && spec_hist nf acc (S idx) rest
   end.
